@@ -51,6 +51,16 @@ unsafe impl GlobalAlloc for CountingAlloc {
         }
         System.dealloc(p, l)
     }
+    unsafe fn alloc_zeroed(&self, l: Layout) -> *mut u8 {
+        if COUNTING.load(Ordering::Relaxed) {
+            let p = self.alloc(l);
+            if !p.is_null() {
+                std::ptr::write_bytes(p, 0, l.size());
+            }
+            return p;
+        }
+        System.alloc_zeroed(l)
+    }
     unsafe fn realloc(&self, p: *mut u8, l: Layout, new: usize) -> *mut u8 {
         if COUNTING.load(Ordering::Relaxed) {
             if new > MAX_SINGLE_ALLOC {
